@@ -153,6 +153,9 @@ def run(repo: Repo, tier: str) -> Report:
     ob("R-FORMULA", "any other gap restarts the run at 1", okrs, f"resets: {[norm_stmt(r.stmt) for r in resets]}",
        resets[0].stmt if resets else "cr = 1")
 
+    from ..rules import no_early_exit
+    from ..symb import StoreCollector
+    no_early_exit(rep, StoreCollector(k.node, FILE, loop_atoms_by_name=True, strict=False).run(), FILE, "lroo", "scan over the positions of ones")
     # ---- croo
     m = repo.method("hdc.algo.accessors", "PixelAlgorithms", "croo")
     assigns = {st.targets[0].id: st for st in m.body if isinstance(st, ast.Assign) and isinstance(st.targets[0], ast.Name)}
